@@ -1124,6 +1124,7 @@ func (r *zeroReader) Read(buf []byte) (int, error) {
 
 // webseedGR fetches data from a GetRight webseed.
 func webseedGR(ctx context.Context, ws *webseed.GetRight, t *Torrent, index, offset, length uint32) {
+	defer verifYield("webseedGR.exit")
 	fcs := fileChunks(t, index, offset, length)
 	writer := NewWriter(t, index, offset, length)
 	defer writer.Close()
@@ -1150,6 +1151,7 @@ func webseedGR(ctx context.Context, ws *webseed.GetRight, t *Torrent, index, off
 // webseedH fetches data from a Hoffman-style webseed.
 func webseedH(ctx context.Context, ws *webseed.Hoffman,
 	t *Torrent, index, offset, length uint32) {
+	defer verifYield("webseedH.exit")
 	w := NewWriter(t, index, offset, length)
 	defer w.Close()
 	_, err := ws.Get(ctx, t.proxy, t.Hash, index, offset, length, w)
